@@ -41,7 +41,7 @@ class SetMutator(CollectionAttrMutator):
             raise ValueError(
                 f"Attempted to add an invalid item `{repr(item)}` to `{self.attr_spec.qualified_name}`. Expected item of type `{type_label(self.attr_spec.item_type)}`."
             )
-        if index and replace:
+        if index is not MISSING and index is not None and replace:
             self.collection.discard(index)
         self.collection.add(item)
 
